@@ -127,4 +127,8 @@ def ofNat (n : Nat) : Nat := rnd 0 n (Nat.add 4096 1075)
 
 def NAN : Nat := FB.NAN
 def isNaN (x : Nat) : Bool := flet x fun x => Nat.beq (ebits x) 2047 && !(Nat.beq (Nat.mod x P52) 0)
+/-- the double nearest `k/10` (for `k < 2^53` both integers are exact, so this is one correctly rounded division) -/
+def tenth (k : Nat) : Nat := div (ofNat k) (ofNat 10)
+/-- the double nearest `-(k/10)` -/
+def negTenth (k : Nat) : Nat := neg (tenth k)
 end F64
